@@ -47,6 +47,15 @@ Theorem views_agree :
 Proof. exact views_agree_lem. Qed.
 Print Assumptions views_agree.
 
+(* non-vacuity: the hypotheses hold for a harness lambda with only a Stream native that
+   splits its output in two chunks (and for every other well-formed spec:
+   harness_node_consistent below) *)
+Example views_agree_nonvacuous :
+  node_consistent val val vconcat vconcat (node_of_spec any_spec) (spec_fun any_spec)
+  /\ has_any (node_of_spec any_spec) = true
+  /\ view_I vconcat (node_of_spec any_spec) (VS "ab"%string) = Ok (VS "n1(ab)"%string).
+Proof. split; [apply spec_consistent; reflexivity|split; reflexivity]. Qed.
+
 (* ------------------------------------------------------------------ operation level *)
 
 (* fan-out (copyItem): every copy concatenates to what the original concatenates to *)
@@ -67,6 +76,22 @@ Theorem concat_merge :
     vsconcat t = v_merge (map VM ms).
 Proof. exact concat_merge_lem. Qed.
 Print Assumptions concat_merge.
+
+Example concat_merge_nonvacuous :
+  let s1 := [Val (VM [(0%N, "a"%string)]); Val (VM [(0%N, "b"%string)])] in
+  let s2 := [Val (VM [(1%N, "c"%string)])] in
+  let t := [Val (VM [(0%N, "a"%string)]); Val (VM [(1%N, "c"%string)]); Val (VM [(0%N, "b"%string)])] in
+  Forall2 (fun s m => vsconcat s = Ok (VM m)) [s1; s2] [[(0%N, "ab"%string)]; [(1%N, "c"%string)]]
+  /\ Interleaving [s1; s2] t
+  /\ disjoint_keys [] [[(0%N, "ab"%string)]; [(1%N, "c"%string)]] = true
+  /\ vsconcat t = Ok (VM [(0%N, "ab"%string); (1%N, "c"%string)]).
+Proof.
+  cbv zeta. split; [repeat constructor|]. split; [|split; reflexivity].
+  apply (il_cons [] _ _ [[Val (VM [(1%N, "c"%string)])]]).
+  apply (il_cons [[Val (VM [(0%N, "b"%string)])]] _ [] []).
+  apply (il_cons [] _ [] [[]]).
+  constructor. repeat constructor.
+Qed.
 
 (* ... and a source that does not concatenate (error item, ...) makes every interleaving
    fail to concatenate: the failure reaches the consumer in stream mode too *)
@@ -93,6 +118,12 @@ Theorem concat_keyFilter :
 Proof. exact concat_keyFilter_lem. Qed.
 Print Assumptions concat_keyFilter.
 
+Example concat_keyFilter_nonvacuous :
+  let s := [Val (VM [(0%N, "a"%string)]); Val (VM [(1%N, "x"%string)]); Val (VM [(0%N, "b"%string)])] in
+  (forall m, vsconcat s = Ok (VM m) -> mhas 0%N m = true)
+  /\ vsconcat (s_keyFilter 0%N s) = Ok (VS "ab"%string).
+Proof. cbv zeta. split; [|reflexivity]. intros m H. vm_compute in H. inversion H. reflexivity. Qed.
+
 (* Workflow field mappings (ToField / MapFields / FromField between strings and flat maps):
    the stream form (chunk-wise; a chunk that lacks a key maps nothing, an empty mapping
    result becomes the zero value of the input type) against the value form, when every key
@@ -104,6 +135,18 @@ Theorem concat_fieldMap :
     agree (vsconcat (s_fmap f s)) (res_bind (vsconcat s) (v_fmap f)) /\ s_fmap f s <> [].
 Proof. exact concat_fieldMap_lem. Qed.
 Print Assumptions concat_fieldMap.
+
+Example concat_fieldMap_nonvacuous :
+  let f := FTo [(Some 0%N, 5%N); (Some 1%N, 6%N)] in
+  let s := [Val (VM [(0%N, "a"%string)]); Val (VM [(1%N, "x"%string)]); Val (VM [(0%N, "b"%string)])] in
+  fmap_wf f = true
+  /\ (forall x, vsconcat s = Ok x -> fmap_dom f x = true)
+  /\ vsconcat (s_fmap f s) = Ok (VM [(5%N, "ab"%string); (6%N, "x"%string)])
+  /\ res_bind (vsconcat s) (v_fmap f) = Ok (VM [(5%N, "ab"%string); (6%N, "x"%string)]).
+Proof.
+  cbv zeta. split; [reflexivity|]. split; [|split; reflexivity].
+  intros x H. vm_compute in H. inversion H. reflexivity.
+Qed.
 
 (* run-time type check on the edges leaving an any-typed node: chunk-wise stream form
    (defaultStreamConverter) against the value form (defaultValueChecker) *)
@@ -131,6 +174,10 @@ Theorem run_sim :
 Proof. exact run_sim_lem. Qed.
 Print Assumptions run_sim.
 
+(* non-vacuity of [prog_ok]: see harness_graph_ok / agree_nonvacuous below *)
+Example prog_ok_nonvacuous : prog_ok (compile_sprog mixed_prog).
+Proof. apply compile_ok. reflexivity. Qed.
+
 (* the four public paradigms of one compiled graph agree *)
 Theorem stream_invoke_agree :
   forall (mrg : list nat -> list (stream val) -> stream val),
@@ -142,6 +189,18 @@ Theorem stream_invoke_agree :
       /\ agree (vsconcatR (g_transform mrg p (map Val chunks))) (g_invoke p x).
 Proof. exact four_paradigms_lem. Qed.
 Print Assumptions stream_invoke_agree.
+
+(* hence what a stream-mode run concatenates to does not depend on how MergeStreamReaders
+   interleaves its sources (the correspondence runs the model with one fixed interleaving) *)
+Theorem interleaving_irrelevant :
+  forall (mrg1 mrg2 : list nat -> list (stream val) -> stream val),
+    (forall pos ls, Interleaving ls (mrg1 pos ls)) ->
+    (forall pos ls, Interleaving ls (mrg2 pos ls)) ->
+    forall p, prog_ok p ->
+    forall s, s <> [] -> (forall x, vsconcat s = Ok x -> dom_ok p x = true) ->
+      agree (vsconcatR (g_transform mrg1 p s)) (vsconcatR (g_transform mrg2 p s)).
+Proof. exact interleaving_irrelevant_lem. Qed.
+Print Assumptions interleaving_irrelevant.
 
 (* ------------------------------------------------------------------ the graphs of the harness *)
 
@@ -283,3 +342,12 @@ Example agree_nonvacuous_loop :
   /\ vsconcatR (g_transform seq_mrg (compile_sprog loop_prog) (map Val [VS "a"%string; VS "b"%string]))
      = g_invoke (compile_sprog loop_prog) (VS "ab"%string).
 Proof. exact loop_prog_in_domain. Qed.
+
+(* non-vacuity with a multi-branch (two of three alternatives selected by a stream condition) *)
+Example agree_nonvacuous_multibranch :
+  sprog_wf multi_prog = true
+  /\ dom_ok (compile_sprog multi_prog) (VS "ab"%string) = true
+  /\ g_invoke (compile_sprog multi_prog) (VS "ab"%string) = Ok (VS "n4{aa=n1(ab);ab=n2(ab);}"%string)
+  /\ vsconcatR (g_transform seq_mrg (compile_sprog multi_prog) (map Val [VS "a"%string; VS "b"%string]))
+     = g_invoke (compile_sprog multi_prog) (VS "ab"%string).
+Proof. exact multi_prog_in_domain. Qed.
